@@ -29,6 +29,8 @@ from vx import bounded as _bd
 from vx import cases as _cs
 for _p in _cs.CASES:
     EXTRA_ENGINES.setdefault(_p, []).append(('bounded', _bd.engine(_p)))
+from vx import hlcheck as _hl
+EXTRA_ENGINES.setdefault('C05', []).append(('bounded:highlight', _hl.engine))
 HOOK_COMMITS = ['431763a']
 
 META = {
